@@ -64,7 +64,17 @@ def optExprToks : Option Expr → List String
   | some e => exprToks lvComma e
   | none => []
 
-def pragmaLine (t : String) : String := if t.isEmpty then "\n#pragma\n" else "\n#pragma " ++ t ++ "\n"
+/-- a pragma text that starts with a double quote stands for the operator form `_Pragma("...")`
+(the text is then the string literal as spelled); any other text for a `#pragma text` line -/
+def isPragmaOp (t : String) : Bool := t.startsWith "\""
+
+def pragmaLine (t : String) : String :=
+  if isPragmaOp t then "_Pragma ( " ++ t ++ " )"
+  else if t.isEmpty then "\n#pragma\n" else "\n#pragma " ++ t ++ "\n"
+
+/-- the documented AST: `Pragma(string)`; for the operator form the string is the literal's `Constant` -/
+def pragmaVal (t : String) : Val :=
+  if isPragmaOp t then nd .Pragma [nd .Constant [.str "string", .str t]] else nd .Pragma [.str t]
 
 mutual
 /-- concrete syntax; pragma lines are rendered on lines of their own -/
@@ -196,12 +206,12 @@ def Stmt.toVal : Stmt → Val
   | .staticAssert c msg =>
     nd .StaticAssert [c.toVal, match msg with
       | some m => nd .Constant [.str "string", .str ("\"" ++ m ++ "\"")] | none => .none]
-  | .pragma t => nd .Pragma [.str t]
-  | .pragmaThen ps s => nd .Compound [.list (ps.map (fun t => nd .Pragma [.str t]) ++ [s.toVal])]
+  | .pragma t => pragmaVal t
+  | .pragmaThen ps s => nd .Compound [.list (ps.map pragmaVal ++ [s.toVal])]
 /-- block items; pragma lines in front of a block item are block items themselves -/
 def itemsVal : List Stmt → List Val
   | [] => []
-  | .pragmaThen ps s :: r => ps.map (fun t => nd .Pragma [.str t]) ++ s.toVal :: itemsVal r
+  | .pragmaThen ps s :: r => ps.map pragmaVal ++ s.toVal :: itemsVal r
   -- pycparser reads the `;` after a static assertion inside a block as an empty statement of its
   -- own (pinned by the repository's test_static_assert); at file scope the `;` is dropped
   | .staticAssert c m :: r => (Stmt.staticAssert c m).toVal :: nd .EmptyStatement [] :: itemsVal r
@@ -246,7 +256,8 @@ def forWraps : List (Stmt → Stmt) :=
 def sWrap1 : List (Stmt → Stmt) :=
   [fun s => .ifThen cE s, fun s => .while_ cE s, fun s => .doWhile s cE,
    fun s => .switch_ cE s, fun s => .case_ (.const "int" "1") s, fun s => .default_ s,
-   fun s => .label "L" s, fun s => .compound [s], fun s => mkPragmaThen ["p"] s] ++ forWraps
+   fun s => .label "L" s, fun s => .compound [s], fun s => mkPragmaThen ["p"] s] ++ forWraps ++
+    [fun s => mkPragmaThen ["\"q\""] s]
 
 def okThen (t : Stmt) : Bool := !t.openIf
 
@@ -261,7 +272,7 @@ def enumStmt (na nw : Nat) : Nat → List Stmt
 
 def blockExtras : List Stmt :=
   [.decl "v" (some (.const "int" "2")), .decl "w" none, .staticAssert (.const "int" "1") (some "m"),
-   .staticAssert (.id "k") none, .pragma "once", .pragma ""]
+   .staticAssert (.id "k") none, .pragma "once", .pragma "", .pragma "\"op text\""]
 
 def genList (g : Nat → Stmt × Nat) : Nat → Nat → List Stmt → List Stmt × Nat
   | 0, s, acc => (acc.reverse, s)
@@ -321,6 +332,7 @@ def randStmt : Nat → Bool → Nat → Stmt × Nat
       (.switch_ cE (.compound (r.1.map fixItem)), r.2)
     else
       let r := randStmt d false s1
-      (mkPragmaThen (if (r.2 / 65536) % 2 == 0 then ["omp parallel"] else ["a", "b c"]) r.1, lcg r.2)
+      (mkPragmaThen (match (r.2 / 65536) % 3 with
+        | 0 => ["omp parallel"] | 1 => ["a", "b c"] | _ => ["\"omp flush\"", "z"]) r.1, lcg r.2)
 
 end PycModel.Spec
